@@ -30,13 +30,16 @@ DAY = 86400
 T0 = 1330387200      # 2012-02-28 00 UTC
 
 
-def dataset(seed, with_clim, near=False):
+def dataset(seed, with_clim, near=False, unknown_elev=False, b_own_obs=False):
     """near=True: hourly initialisation times and consecutive 7-digit station ids, i.e. coordinates that differ by less
     than any plausible relative tolerance (selection is by exact value)"""
     locs = gen.std_locs(4, seed)          # ids 100+.., lat 40,42.5,45,47.5 ; lon -120.. ; elev 1000,1250,1500,1750
     H6 = 3600 if near else 6 * 3600
     if near:
         locs = [(1000231 + i,) + tuple(l[1:]) for i, l in enumerate(locs)]
+    if unknown_elev:
+        # a station whose elevation is unknown (a NetCDF file without a value for it): inside no elevation range
+        locs = [l if i != 1 else (l[0], l[1], l[2], float("nan")) for i, l in enumerate(locs)]
     times = [T0, T0 + H6, T0 + 2 * H6, T0 + DAY, T0 + DAY + H6, T0 + DAY + 2 * H6]
     leads = [0.0, 6.0, 12.0]
     vals = gen.unique_values(seed, 400)
@@ -60,6 +63,10 @@ def dataset(seed, with_clim, near=False):
         ai.fields["obs"] = fo
         ai.fields["fcst"] = ff
     del A.fields["fcst"][(0, 0, 0)]
+    if b_own_obs:
+        # B carries observations of its own that differ from A's at three cases (far outside any observation range used here)
+        for pos in B.positions()[3::17][:3]:
+            B.fields["obs"][pos] = B.fields["obs"][pos] + 1000.0
     clim = None
     if with_clim:
         tK = [times[i] for i in (0, 1, 3, 4, 5, 2)]
@@ -116,8 +123,10 @@ def h_api(ctx):
     seed = core.seed()
     with_clim = ctx.choose("clim", (False, True), free=True)
     near = bool(ctx.params.get("near"))
-    A, B, clim, locs, times = dataset(seed, with_clim, near)
-    ov = option_values(locs, times, near)
+    unknown_elev = ctx.choose("unknown-elevation", (False, True))
+    b_own_obs = ctx.choose("B-has-its-own-observations", (False, True))
+    A, B, clim, locs, times = dataset(seed, with_clim, near, unknown_elev, b_own_obs)
+    ov = option_values([l if l[3] == l[3] else (l[0], l[1], l[2], 1250.0) for l in locs], times, near)
     kw = {}
     chosen = {}
     for o in OPTS:
@@ -171,6 +180,10 @@ def h_api(ctx):
     ctx.outcome("T%dL%dS%d" % (len(ref.T), len(ref.L), len(ref.S)))
     if obsr == 0:
         ctx.flag("obsrange")
+    if unknown_elev and "elev_range" in kw:
+        ctx.flag("unknown-elevation")
+    if b_own_obs and obsr == 0:
+        ctx.flag("own-observations")
     ctx.nontrivial(not full)
 
 
@@ -355,7 +368,7 @@ def run(tier, only=None):
         subs.append(core.Sub.from_e1("api", st, bound=bound,
                                      rule="one execution = one option combination on Data(); selected times/leadtimes/locations and every request "
                                           "compared with the reference; non-trivial = the selection is a strict subset",
-                                     required_flags=("empty", "obsrange"), wall=time.time() - t0))
+                                     required_flags=("empty", "obsrange", "unknown-elevation", "own-observations"), wall=time.time() - t0))
     if only in (None, "api-near"):
         t0 = time.time()
         kk = 2 if tier == "quick" else 3
